@@ -507,6 +507,23 @@ impl Parser {
                         format!("type mismatch: this assignment will update a variable with type `{}`, which is not compatible with the original type `{}`", previous_ty.ty().unwrap(), &x.idents[0])
                     )]);
                 }
+
+                // the variable keeps ITS type, not the type of the value stored into it (`int` into
+                // an `int?`): the capture analysis matches captured variables by name and type
+                let declared_ty = previous_ty
+                    .ty()
+                    .unwrap()
+                    .disregard_distractors(false)
+                    .clone();
+                if x.idents[0].is_instance_callback_variable().unwrap_or(false) {
+                    // later reads in this function see the declared type as well
+                    user_data.add_dependency(
+                        &x.idents[0].clone_with_type(Cow::Owned(declared_ty.clone())),
+                    );
+                    x.idents[0].set_type_no_link(Cow::Owned(TypeLayout::CallbackVariable(
+                        Box::new(declared_ty),
+                    )));
+                }
             }
         }
 
